@@ -802,3 +802,49 @@ def complete_both(ctx: Ctx):
     ok = bool(rem) and cond_in_loop(ctx, cm, lp, rem[0]) == TRUE
     yield ctx.ob('C11.COMPLETE-BOTH', ok, cm, rem[0] if rem else lp, f'{PD}[dependent].remove(task) for every dependent',
                  '' if ok else 'the finished task is not removed from the pending dependencies of every dependent')
+
+
+def _set_valued_fields(ctx: Ctx, cls) -> set[str]:
+    """Fields of a class annotated as dict[..., Set[...]] / Set[...] (hash-seed dependent iteration)."""
+    out = set()
+    init = cls.methods.get('__init__')
+    if init is None:
+        return out
+    for n in walk_local(init.node):
+        if isinstance(n, ast.AnnAssign) and isinstance(n.target, ast.Attribute):
+            a = src(n.annotation)
+            if 'Set[' in a or a.startswith('set[') or ', set[' in a:
+                out.add(n.target.attr)
+    return out
+
+
+@rule('ORDER-INSENSITIVE-CONSUMERS', ['C01', 'C17', 'C11'], tier='thorough')
+def order_insensitive_consumers(ctx: Ctx):
+    """Sweep (hash-seed clause): a loop over an unordered collection - a set-valued state field, set(...)
+    or a set literal - must have no early exit other than raise, so iteration order cannot matter."""
+    n = 0
+    for fn in ctx.P.all_functions():
+        if not (fn.module.name.endswith('.lab') or '.runners' in fn.module.name):
+            continue
+        top = fn
+        while top.parent is not None:
+            top = top.parent
+        setf = _set_valued_fields(ctx, top.cls) if top.cls is not None else set()
+        sn = top.self_name
+        for lp in [x for x in walk_local(fn.node) if isinstance(x, ast.For)]:
+            it = strip_order_preserving(lp.iter)
+            unordered = isinstance(it, (ast.Set, ast.SetComp)) or (isinstance(it, ast.Call) and dotted(it.func) in ('set', 'frozenset'))
+            if isinstance(it, ast.Subscript) and isinstance(it.value, ast.Attribute) and isinstance(it.value.value, ast.Name) \
+                    and it.value.value.id == sn and it.value.attr in setf:
+                unordered = True
+            if isinstance(it, ast.Attribute) and isinstance(it.value, ast.Name) and it.value.id == sn and it.attr in setf:
+                unordered = True
+            if not unordered:
+                continue
+            n += 1
+            exits = early_exits(lp, allow_raise=True, allow_continue=True)
+            yield ctx.ob('ORDER-INSENSITIVE-CONSUMERS', not exits, fn, exits[0] if exits else lp, f'loop over unordered `{src(lp.iter)}`',
+                         '' if not exits else f'`{src(exits[0])}` inside a loop over the unordered collection `{src(lp.iter)}`: which elements are '
+                         'processed depends on set iteration order, i.e. on the hash seed')
+    if n == 0:
+        yield ctx.ob('ORDER-INSENSITIVE-CONSUMERS', True, None, None, 'no loop over an unordered collection found', construct='none', path='labtech/lab.py')
